@@ -216,6 +216,21 @@ class Index:
     root = os.path.join(self.repo, PKG)
     if not os.path.isdir(root):
       raise AnalysisError('package directory %s not found' % root)
+    # package-wide facts the per-module normal form needs (new expression-bodied methods used across modules)
+    try:
+      from .normalize import scan_package_methods
+      raw_trees = []
+      for dirpath, dirnames, filenames in os.walk(root):
+        for fn in sorted(filenames):
+          if fn.endswith('.py'):
+            try:
+              with open(os.path.join(dirpath, fn), 'rb') as fh:
+                raw_trees.append(ast.parse(fh.read()))
+            except SyntaxError:
+              pass
+      scan_package_methods(raw_trees)
+    except Exception:
+      pass
     for dirpath, dirnames, filenames in os.walk(root):
       dirnames.sort()
       for fn in sorted(filenames):
